@@ -11,7 +11,7 @@ CLAIMED = {
         'Coq proof (induction over histories, frame/isolation lemma over all schedules) of a hand-written '
         'Gallina state machine + differential correspondence with the real Config/InverseOperator/threads',
         'All well-nested histories of any depth and all thread schedules are covered by theorems about the model '
-        '(restore, innermost_wins, ends_with_defaults, capture, capture_effect / effects_determine_every_setting, thread_isolation); the model is tied to the code by '
+        '(restore, innermost_wins, ends_with_defaults, capture, capture_effect / effects_determine_every_setting, capture_everywhere (any object derived from an inverse by reduce / composition / blocks / round trip / .I.I, applied through any route incl. jit arguments), thread_isolation); the model is tied to the code by '
         'running the same histories (exhaustive up to 5-6 events, plus seeded random, plus all interleavings of short '
         'thread histories on real threads) on the real code and on the model evaluated by vm_compute; every captured '
         'setting is observed through its EFFECT on op.I(y) (failing and converging solves identified against NumPy CG references).',
@@ -75,7 +75,8 @@ CLAIMED = {
         'soundness of the two inverse rules; differential correspondence with the real operators',
         'moveaxis_spec/inverse/inverse_pytree/T_inverse/rule_sound, ravel_ctor_iff/assert_unreachable/spec, '
         'reshape_ctor_iff/completed_shape/data_identity/reshapeT_restores_shape, reduce_identity_iff_noop, '
-        'reshape_rule_sound: all inputs (model level). Tie: C-tie on ~9000 (quick) constructor calls and applications: '
+        'reshape_rule_sound: all inputs (model level). Tie: C-tie on ~13000 (quick) constructor calls, applications and two-operand '
+        'compositions (same object / equal-but-distinct / different operators sharing a side) whose reduce() is compared with the unreduced operator and NumPy: '
         'all leaf shapes of rank <= 4 over dims {1,2,3}, all source/destination tuples, all (first,last) in [-5,5]^2, all '
         'factorisations with -1, malformed stream, pytrees of different ranks; oracle numpy.moveaxis/reshape.',
         'Trusts the Gallina specs of jnp.moveaxis / reshape / jax.tree.map (validated on the enumerated scope), '
@@ -88,7 +89,7 @@ CLAIMED = {
         'involutivity, exact accept/reject characterisation, every rejection a ValueError; the pinned (pre-fix) '
         'first-occurrence swap is kept as a refuted variant; differential correspondence on all short strings',
         'rewrite_adjoint / rewrite_adjoint_mv / rewrite_adjoint_Z (all strings, shapes, blocks, inputs), accepts_iff, '
-        'rejects_without_rewriting, outcome_total, rewrite_involutive. Tie: C-tie on every string l,r->o over {i,j,k,...} up '
+        'rejects_without_rewriting, outcome_total, rewrite_involutive, mv_applies_einsum_to_each_leaf_shared/perleaf, mv_pytree_without_leaves. Tie: C-tie on every string l,r->o over {i,j,k,...} up '
         'to the enumerated lengths plus malformed strings (outcome compared), and mv / T.mv / dense matrices on integer '
         'blocks; oracle mat(op.T) = mat(op)^T with NumPy einsum.',
         'Trusts the textbook einsum specification for jnp.einsum (size-1 ellipsis broadcasting not modelled), Python '
@@ -178,7 +179,7 @@ CLAIMED = {
         'expressions QURotationRule computes; R.HWP = HWP.R^T, P.HWP = P; factories = explicit products; reduce of any chain '
         'over {R, R^T, HWP, P} preserves the map; stage 2 discharges the polarimetry leaf_facts assumed by C01 for the '
         'executable leaf semantics; differential correspondence + NumPy Mueller oracle',
-        '47 obligations, all closed under the global context (the Coq.Reals instance file depends on the standard real '
+        'all obligations closed under the global context (the Coq.Reals instance file depends on the standard real '
         'axioms sig_forall_dec, sig_not_dec, functional_extensionality_dep). Tie: all chains of length <= 4 x 4 Stokes kinds '
         'x broadcast angle arrays (k.pi/4 exact; Pythagorean generic angles at 1e-12 under x64), factories, same-object '
         'patterns.',
@@ -193,7 +194,7 @@ CLAIMED = {
         'hit-count diagonal (built and reduced, incl. the unique/scatter pipeline) for every Stokes kind, pixel table and '
         'angle; C-tie on the real create_projection_operator / create_acquisition; pixel lookup tested numerically only',
         'euler_is_ZYZ, euler_orthogonal, einsum_is_matvec, projection_formula, acquisition_formula, '
-        'acquisition_reduce_equal, PtP_hits, PtP_reduce_equal, multiplicity_is_hit_count: 17 obligations closed under the '
+        'acquisition_reduce_equal, PtP_hits, PtP_reduce_equal, multiplicity_is_hit_count: all obligations (count in the evidence file) closed under the '
         'global context. Tie: T-tie Gen/EulerMatrix.v; C-tie feeding the model the implementation\'s own pixel table '
         '(nside 1-4, 4 Stokes kinds, 1-3 detectors, several directions per detector).',
         'Partial: that pix[d,t] is the HEALPix pixel containing the rotated direction (vec2dir float trig + '
@@ -208,9 +209,13 @@ CLAIMED = {
         'field partition of every operator class regenerated and proved consistent with trace-safe use; JIT / XLA / '
         'equinox behaviour tested on every operator class through four execution routes',
         'roundtrip_ok, registered_keys_accepted, unaccepted_key_always_fails (D4 stated generally), '
-        'unflatten_call_always_binds, partition_sound, no_shape_level_field_traced, mask_fields_excluded, table_unchanged: '
-        '17 obligations closed under the global context. Tie: T-tie Gen/PytreeReg.v + Gen/FieldTable.v; C-tie on the '
-        'registered nodes; 223 instance runs x 3 dtype modes comparing eager / jit closure / filter_jit / round trip.',
+        'unflatten_call_always_binds, partition_sound, no_shape_level_field_traced, mask_fields_excluded, table_unchanged, '
+        'static_fields_all_compared (every static dataclass field and every ConfigState field takes part in the equality the jit cache uses): '
+        'all obligations (count in the evidence file) closed under the global context. Tie: T-tie Gen/PytreeReg.v + Gen/FieldTable.v; C-tie on the '
+        'registered nodes; ~350 instance runs (0-d / 1-element / integer variants of every array field) comparing eager / jit closure / '
+        'filter_jit / round trip in several ORDERS on one object and under different ambient configurations at trace and call time; '
+        'one-field pairs through one jitted function; static scans for hidden per-object state, Python-level conversions of traced '
+        'fields and ambient reads.',
         'Partial: that tracing, jit/XLA and equinox generic flattening preserve values is tested (27 concrete operator '
         'classes, composites, landscapes, both x64 modes), not proved. Trusts the translator, the interpreter\'s Python '
         'semantics on its value domain, the hand-written use classification of fields. Model follows fix 00febbf.',
@@ -222,7 +227,7 @@ CLAIMED = {
         'independence, error propagation, kind rejection, factories, from_stokes/from_iquv, the dtype promotion table as a '
         'least upper bound, structure preservation of the *_like / as_structure / as_promoted_dtype helpers, dot as the '
         'Hermitian sum over a ring with involution; differential correspondence in both x64 modes with exact oracle',
-        '51 obligations closed under the global context (incl. index_componentwise over a total model of NumPy basic/advanced indexing). Tie: C-tie on ~7700 (quick) cases: kinds x shapes x dtypes x ~500 index forms x '
+        'all obligations (count in the evidence file) closed under the global context (incl. index_componentwise over a total model of NumPy basic/advanced indexing). Tie: C-tie on ~7700 (quick) cases: kinds x shapes x dtypes x ~500 index forms x '
         'operand forms x all dunders in both orders with distinct prime components; jnp.result_type compared on all 12x12 '
         'pairs and 12^3 triples in both x64 modes (finite: exhaustive).',
         'JAX leaf primitives are Gallina specifications checked against JAX by the harness; exact rationals for floats; '
@@ -238,7 +243,7 @@ CLAIMED = {
         'constructor / mv / .T / .I / as_matrix / reduce / products of the real blocks.py with NumPy/SciPy oracle',
         'blockdiag/blockcol/blockrow_spec, blockrow_single, block*_matrix, block*_dense, matrix_is_basis_columns, '
         'block_transposes(+adjoint), blockdiag_inverse(_sound), ctor_ok_iff, ctor_rejects_mismatch, '
-        'block_rules_fire_iff_same_treedef, block_rules_sound, row_col_is_sum, ctor_rejects_other_container: 39 obligations closed under the global '
+        'block_rules_fire_iff_same_treedef, block_rules_sound, row_col_is_sum, ctor_rejects_other_container, lazy_transpose_inverse, blockdiag_steps (any .T/.I sequence is taken block by block): all obligations (count in the evidence file) closed under the global '
         'context, nothing partial. Tie: C-tie on 9 container shapes x ~25 block kinds and all compatible pairs of ~50 block '
         'operators (592 quick / 1808 thorough cases).',
         'Matrix forms assume each block acts as a matrix (shown for the measured-matrix leaves of Exec by '
@@ -255,7 +260,7 @@ CLAIMED = {
         'discharged for the executable leaf rules and for measured-matrix leaves; differential correspondence in both x64 modes',
         'out_structure_honest, application_defined, sizes_agree, block_sizes, promoted_dtype_is_join, '
         'out_structure_honest_dtypes, declared_is_evaluated, composite_structs, transpose_structs, exec_leaf_honest/defined: '
-        '20 obligations closed under the global context (incl. the shape model of the diagonal constructors: diagonal_ctor_honest). Tie: C-tie on every class x layouts x data dtype {f32,f64,i32,mixed} '
+        'all obligations (count in the evidence file) closed under the global context (incl. the shape model of the diagonal constructors: diagonal_ctor_honest). Tie: C-tie on every class x layouts x data dtype {f32,f64,i32,mixed} '
         'x parameter dtype x x64 on/off: out_structure() vs eval_shape vs actual mv(x) vs model (1336 quick / 5460 thorough).',
         'The structures of REDUCED and INVERTED operators are proved in Props/C01Structs.v (reduce_structs) and '
         'Props/C06Structs.v (inverse_structs), compiled by the C01 / C06 checks, and compared here on the real objects. Default-out_structure leaves carry the real declaration in the term; JAX eval_shape / '
@@ -273,7 +278,7 @@ CLAIMED = {
         'homothety_inv, diag_inv, diag_pinv_moore_penrose, diag_pinv_projection, orthogonal_inv_rotation/moveaxis, '
         'inverse_two_sided, blockdiag_inv, blockdiag_inverse_blockwise, inverse_of_lazy_inverse, inv_inv, '
         'inverse_refuses_nonsquare, inverse_cases, lazy_inverse_matrix, inverse_structs, inv_inv_full (premise-free), '
-        'inv_inv_total: 45 obligations closed under the global context. '
+        'inv_inv_total: all obligations (count in the evidence file) closed under the global context. '
         'Tie: C-tie on the whole alphabet + closed-form parameter scopes (all zero masks n<=4, move-axis tuples, rotation '
         'residues, nested block containers): skeleton/identities of op.I and op.I.I, structures, dense matrices, refusal kind; '
         'T-tie Props/Tables.v (method resolution of inverse).',
@@ -293,7 +298,7 @@ CLAIMED = {
         'identity_scalar_override_is_generic, represents_implies_generic, matrix_determined_by_products closed and '
         'premise-free; generic_loop_is_columns (the transcribed fori_loop builds exactly the column matrix) proved for every '
         'term; apply_is_matvec for every honest operator; override_represents / override_eq_generic under named leaf '
-        'premises. 19 obligations closed under the global context. Tie: C-tie on 470 (quick) / 6475 (thorough) operators: '
+        'premises; as_matrix_resolution_as_modelled ties the dispatch to the regenerated method table. All obligations closed under the global context. Tie: T-tie Props/Tables.v; C-tie on ~790 (quick) / ~7200 (thorough) operators incl. complex and mixed dtypes, all Toeplitz methods: '
         'op.as_matrix(), AbstractLinearOperator.as_matrix(op), the mv(e_j) matrix, linearity probes, vs x_as_matrix / '
         'x_generic / Exec.mat.',
         'Partial: override_eq_generic carries the premises HON (C05 honesty, derivable via honesty_premise_from_C05) and the '
@@ -312,7 +317,7 @@ CLAIMED = {
         'transpose_adjoint, transpose_in_domain, adjoint_of_composition, inner_splits, transpose_structs, '
         'transpose_well_formed, transpose_involutive, transpose_of_lazy_is_operand, symmetric_returns_self, '
         'composition_reversed, block_row_column_swapped, inverse_transpose_excluded, exec_leaf_facts, '
-        'exec_transpose_is_adjoint, table_transpose_is_adjoint, fresh_lazy_transpose_is_adjoint: 22 obligations closed under '
+        'exec_transpose_is_adjoint, table_transpose_is_adjoint, fresh_lazy_transpose_is_adjoint: all obligations (count in the evidence file) closed under '
         'the global context. Tie: C-tie on ~160 operands (einsum variants incl. repeated letters, axes, index, diagonal, '
         'Toeplitz, obs-matrix, explicit TransposeOperators) in 10 contexts: skeleton, structures, dense matrices of e.T and '
         'e.T.T, integer-probe inner products (1314 quick / 14874 thorough).',
